@@ -2,10 +2,10 @@
 C08 / C02 / C03 / C11 — L2 models that MIRROR THE CONTROL FLOW of the cheap terms of the LMO / Deleglise-Rivat /
 Gourdon formulas (core Lean only, executable):
 
-* `leafThread`, `s1Thread`, `s1Body`, `s1OpenMP`       src/S1.cpp:40-86      (S1_thread, S1_OpenMP)
-* `phi0Thread`, `phi0Body`, `phi0OpenMP`               src/gourdon/Phi0.cpp:50-96 (Phi0_thread, Phi0_OpenMP)
-* `sigma0 … sigma3`, `sigma456`, `sigmaParts`, `sigma` src/gourdon/Sigma.cpp:30-150
-* `s2TrivLoop`, `s2Trivial`                            src/deleglise-rivat/S2_trivial.cpp:40-94
+* `leafThread`, `s1Thread`, `s1Body`, `s1OpenMP`       src/S1.cpp:38-86      (S1_thread, S1_OpenMP)
+* `phi0Thread`, `phi0Body`, `phi0OpenMP`               src/gourdon/Phi0.cpp:44-93 (Phi0_thread, Phi0_OpenMP)
+* `sigma0 … sigma3`, `sigma456`, `sigmaParts`, `sigma` src/gourdon/Sigma.cpp:30-180
+* `s2TrivLoop`, `s2Trivial`                            src/deleglise-rivat/S2_trivial.cpp:38-89
 * `ompReduce`, `staticSched1`                          `#pragma omp parallel for schedule(static, 1) reduction(+: s)`
 
 What is a parameter here (tied elsewhere):
@@ -72,8 +72,8 @@ def piGet (t : NT) (maxX n : Nat) : LM Nat := if n ≤ maxX then .ok (t.piOf n) 
 
 /-! ### ordinary leaves: `S1_thread` / `Phi0_thread` (the two C++ functions are textually the same up to names) -/
 
-/-- `S1_thread<MU>(x, y, b, c, square_free, primes)` (S1.cpp:40-58) and `Phi0_thread<MU>(x, z, b, k, square_free, primes)`
-    (Phi0.cpp:50-68), with the local accumulator `s1` made explicit (`acc`; the C++ function starts it at 0):
+/-- `S1_thread<MU>(x, y, b, c, square_free, primes)` (S1.cpp:38-57) and `Phi0_thread<MU>(x, z, b, k, square_free, primes)`
+    (Phi0.cpp:44-63), with the local accumulator `s1` made explicit (`acc`; the C++ function starts it at 0):
 
         for (b++; b < primes.size(); b++) {
           T next = square_free * primes[b];
@@ -128,7 +128,7 @@ def staticSched1 (lo hi nt : Nat) : List (List Nat) :=
   (List.range nt).map fun i =>
     (List.range (hi + 1 - lo)).filterMap fun j => if j % nt = i then some (lo + j) else none
 
-/-- the body of the `omp for` of `S1_OpenMP` (S1.cpp:80-84) on the private copy `s1`:
+/-- the body of the `omp for` of `S1_OpenMP` (S1.cpp:79-83) on the private copy `s1`:
         s1 -= phi_tiny(x / primes[b], c);
         s1 += S1_thread<1>(x, y, b, c, (X) primes[b], primes); -/
 def s1Body (t : NT) (w : ITy) (size x y c : Nat) (b : Nat) (s1 : Int) : LM Int := do
@@ -137,21 +137,21 @@ def s1Body (t : NT) (w : ITy) (size x y c : Nat) (b : Nat) (s1 : Int) : LM Int :
   let r ← s1Thread t w size x y c 1 b (t.p b)
   pure (s1 - (ph : Int) + r)
 
-/-- `S1_OpenMP(x, y, c, threads)` (S1.cpp:64-88); `sched` = the distribution of `b = c + 1 … pi_y` over the team.
+/-- `S1_OpenMP(x, y, c, threads)` (S1.cpp:63-86); `sched` = the distribution of `b = c + 1 … pi_y` over the team.
     `primes = generate_primes<Y>(y)` is `t.p 0 … t.p (π y)`, `pi_y = primes.size() - 1`. -/
 def s1OpenMP (t : NT) (w : ITy) (x y c : Nat) (sched : List (List Nat)) : LM Int := do
   let piY := t.piOf y
   let s1 ← phiTinyM x c
   ompReduce (s1 : Int) (s1Body t w (piY + 1) x y c) sched
 
-/-- the body of the `omp for` of `Phi0_OpenMP` (Phi0.cpp:90-94) -/
+/-- the body of the `omp for` of `Phi0_OpenMP` (Phi0.cpp:86-90) -/
 def phi0Body (t : NT) (w : ITy) (size x z k : Nat) (b : Nat) (phi0 : Int) : LM Int := do
   let q ← divM x (t.p b)
   let ph ← phiTinyM q k
   let r ← phi0Thread t w size x z k 1 b (t.p b)
   pure (phi0 - (ph : Int) + r)
 
-/-- `Phi0_OpenMP(x, y, z, k, threads)` (Phi0.cpp:74-98) -/
+/-- `Phi0_OpenMP(x, y, z, k, threads)` (Phi0.cpp:69-93) -/
 def phi0OpenMP (t : NT) (w : ITy) (x y z k : Nat) (sched : List (List Nat)) : LM Int := do
   let piY := t.piOf y
   let phi0 ← phiTinyM x k
@@ -187,7 +187,7 @@ structure S456 where
   s6 : Int
 deriving Repr
 
-/-- one iteration of the prime loop of `Sigma456` (Sigma.cpp:73-87) -/
+/-- one iteration of the prime loop of `Sigma456` (Sigma.cpp:75-90) -/
 def sigma456Step (t : NT) (w : ITy) (x y maxX sqrtXY : Nat) (acc : S456) (prime : Nat) : LM S456 := do
   let acc1 ← if prime ≤ sqrtXY then do
       let m ← mulT w prime y                    -- prime * (T) y
@@ -203,7 +203,7 @@ def sigma456Step (t : NT) (w : ITy) (x y maxX sqrtXY : Nat) (acc : S456) (prime 
   let ps ← piGet t maxX (isqrtN xp)             -- pi[isqrt(x / prime)]
   pure { acc1 with s6 := acc1.s6 + (ps : Int) * (ps : Int) }
 
-/-- `Sigma456(x, y, a, x_star, pi)` (Sigma.cpp:59-93): the iterator yields the primes of `[x_star + 1, x13]` -/
+/-- `Sigma456(x, y, a, x_star, pi)` (Sigma.cpp:56-96): the iterator yields the primes of `[x_star + 1, x13]` -/
 def sigma456 (t : NT) (w : ITy) (x y : Nat) (a : Int) (xs maxX : Nat) : LM Int := do
   let x13 := irootN 3 x
   let xy ← divM x y
@@ -213,7 +213,7 @@ def sigma456 (t : NT) (w : ITy) (x y : Nat) (a : Int) (xs maxX : Nat) : LM Int :
   let sigma6 := - r.s6
   pure (sigma4 + r.s5 + sigma6)
 
-/-- the five summands of `Sigma(x, y, threads)` (Sigma.cpp:100-134 for `w = i64`, 138-172 for `w = i128`):
+/-- the five summands of `Sigma(x, y, threads)` (Sigma.cpp:102-139 for `w = i64`, 143-180 for `w = i128`):
     `(Σ0, Σ1, Σ2, Σ3, Σ4+Σ5+Σ6)` -/
 def sigmaParts (t : NT) (w : ITy) (x y : Nat) : LM (Int × Int × Int × Int × Int) := do
   let xs := xStar x y
@@ -239,7 +239,7 @@ def sigma (t : NT) (w : ITy) (x y : Nat) : LM Int := do
 
 /-! ### S2_trivial (S2_trivial.cpp) -/
 
-/-- the `while ((prime = it.next_prime()) < y)` loop (S2_trivial.cpp:66-72) over the primes `qs` of `[start, y)`;
+/-- the `while ((prime = it.next_prime()) < y)` loop (S2_trivial.cpp:64-70) over the primes `qs` of `[start, y)`;
     result `(sum, some prime)` when the loop was left by `break` at `prime`, `(sum, none)` when the iterator
     reached a prime `≥ y` -/
 def s2TrivLoop (t : NT) (w : ITy) (x y : Nat) (piY : Int) : List Nat → Int → LM (Int × Option Nat)
@@ -253,7 +253,7 @@ def s2TrivLoop (t : NT) (w : ITy) (x y : Nat) (piY : Int) : List Nat → Int →
       let v ← piGet t y xpp
       s2TrivLoop t w x y piY qs (sum + (piY - (v : Int)))
 
-/-- `S2_trivial(x, y, z, c, threads)` (S2_trivial.cpp:40-94) -/
+/-- `S2_trivial(x, y, z, c, threads)` (S2_trivial.cpp:38-89) -/
 def s2Trivial (t : NT) (w : ITy) (x y z c : Nat) : LM Int :=
   if y < 2 then pure 0 else do
   let piY ← piGet t y y
